@@ -42,6 +42,12 @@ def uses_of(fn, o):
             p = rv["o"].get("c") or rv["o"].get("m")
             if p is not None:
                 out.add("_%d%s" % (p[0], "".join(p[1:])))
+                # read through a reference taken in a pattern guard (`Some(max) if len > max` binds `max` by reference first)
+                if len(p) >= 2 and p[1] == "*":
+                    rd = fn.single_def(p[0])
+                    if rd is not None and rd[1] == "assign" and rd[2]["rv"]["r"] == "ref":
+                        q = rd[2]["rv"]["p"]
+                        out.add("_%d%s" % (q[0], "".join(q[1:] + p[2:])))
     return out
 
 
@@ -509,10 +515,10 @@ def r04_7(ctx, fx):
                 if "Sink" not in c.name]
         flush = [c for c in fn.calls(r"Sink(<.*>)?>?::poll_flush$|SinkExt::flush$")]
         e1, e2 = set(), set()
-        for c in fn.calls(r"option::Option(<.*>)?::is_some$"):
-            if "pending_out_frame" in fn.recv(c):
+        for c in fn.calls(r"option::Option(<.*>)?::is_some$|option::Option(<.*>)?::is_none$"):
+            if "pending_out_frame" in fn.recv(c) and "pending_out_frames" not in fn.recv(c):
                 for sw, t, f in fn.bool_tests(c.dest[0]):
-                    e1.add((sw, f))
+                    e1.add((sw, f if c.name.endswith("is_some") else t))
         for c in fn.calls(r"VecDeque(<.*>)?::is_empty$"):
             if "pending_out_frames" in fn.recv(c):
                 for sw, t, f in fn.bool_tests(c.dest[0]):
